@@ -54,6 +54,8 @@ class ItemSet(ItemContainerBase):
                 belongs to some fit).
         """
         self._check_class(item)
+        # Item which already is in this set must stay there if addition fails
+        was_present = item in self.__set
         self.__set.add(item)
         if self.__container_override is not None:
             item_container = self.__container_override
@@ -62,7 +64,8 @@ class ItemSet(ItemContainerBase):
         try:
             self._handle_item_addition(item, item_container)
         except ItemAlreadyAssignedError as e:
-            self.__set.remove(item)
+            if not was_present:
+                self.__set.remove(item)
             raise ValueError from e
 
     def remove(self, item):
